@@ -23,6 +23,17 @@ T_ASSUME = ["sequentially consistent interleavings only: reorderings allowed by 
             "lock-free containers from third-party crates are atomic between two scheduling points",
             "sampling, not enumeration"]
 
+K_RULE = ("run i = scenario picked by splitmix(VERIF_SEED, property, i); one xoshiro256** stream draws the kernel configuration (swarm: rates of reordering, short transfer, lazy completion, EINTR, partial submit, "
+          "multishot termination; SQ/CQ entry caps), the runtime configuration (ring capacity, buffer pool), the workload program and then every kernel decision inside io_uring_enter (which enabled event happens next, how many bytes, which fault). "
+          "A run's signature is the hash of the sequence of (event kind, opcode, result class) chosen by the simulated kernel; 'distinct' counts different signatures, 'non-trivial' those of runs in which a fault fired or more than one event was enabled at some decision.")
+K_REAL = ["compio-runtime, compio-driver (io_uring driver, feature verif), compio-executor, compio-fs, compio-net, compio-io, compio-buf", "the userspace half of the io-uring crate (ring code, opcode builders)",
+          "real kernel objects behind the descriptors (pipes, socketpairs, loopback sockets, files): the simulated kernel performs the real non-blocking system call at the step it chooses"]
+K_STUB = ["the kernel side of io_uring (crates/simkernel): SQE consumption, completion timing/order/short counts, CQ overflow, cancellation races, provided-buffer selection, probe", "the clock (clock_gettime interposed; simulated time jumps to the next deadline when idle)",
+          "blocking-pool threads: jobs are queued kernel events run inline (virtual pool, hook H1)"]
+K_ASSUME = ["CQEs become visible at io_uring_enter boundaries only (as with DEFER_TASKRUN); SQPOLL, SQE128/CQE32 and linked SQEs are not modelled",
+            "the simulated kernel never invents behaviour the kernel cannot show; its fidelity is checked against compio's own test-suite (all 217 tests pass on it in benign mode)",
+            "sampling, not enumeration"]
+
 PROPS = {
     "C11": {
         "title": "I/O helpers are invariant under chunking and transient errors",
@@ -207,5 +218,27 @@ PROPS = {
         "level_text": ("Seeded exploration of interleavings of clone / drop on holder threads with a take().await (and a competing second take()): the owned descriptor is dropped exactly once, not before every other handle has begun to let go, "
                        "take() resolves once the last other handle is gone (a wait that can never end is reported with the facts that identify it), a losing take() yields None."),
         "level_note": "Partial claim (cross-thread handle sharing). One open known finding: the wake precedes the release in SharedFd::drop.",
+    },
+    "C14": {
+        "title": "Socket transports deliver exactly what was sent (byte streams over pipes, Unix stream sockets and loopback TCP; datagram and accept-once parts: see level_note)",
+        "engine": "K",
+        "package": "check-k",
+        "bin": "check-k",
+        "design_ref": "§4, §7 C14",
+        "technique": "deterministic simulation: the real compio runtime, driver, fs and net crates on an in-process simulated io_uring kernel (vendored io-uring crate -> simkernel) that decides completion order, short transfers, SQ/CQ sizes down to 1-2 entries, CQ overflow, lazily discovered completions, interrupted waits, partial submission and multishot termination; concurrent reader and writer tasks per channel using every read/write flavour; byte-stream equality and end-of-stream oracles; choice-sequence minimisation and replay",
+        "tiers": {
+            "quick": {"runs": 160_000, "time_limit_s": 60},
+            "thorough": {"runs": 20_000_000, "time_limit_s": 1500},
+        },
+        "rule": K_RULE,
+        "real": K_REAL,
+        "stub": K_STUB,
+        "assumptions": K_ASSUME + [
+            "a multishot read stream is consumed until it ends by itself; dropping it early discards data the kernel already took off the socket (inherent to multishot receive), which this check does not count as loss",
+            "a managed/multishot read that reports pool exhaustion (ResourceBusy) is retried",
+        ],
+        "level_text": ("Seeded exploration of kernel behaviours under 1-3 concurrent channels (pipe / Unix stream / loopback TCP) with write, write_vectored, zero-copy write against read, read_vectored, managed read and multishot read: "
+                       "the receiver's byte sequence equals the sender's and is followed by end of stream after shutdown; submitted buffers come back identical; nothing is left pending; no ring leaks."),
+        "level_note": "Stream half of C14. Datagram sockets (truncation, source address, MSG_TRUNC flag) and accept-exactly-once are not exercised by this check yet. The simulated kernel's fidelity is checked by running compio's own 217 tests on it (tools/fidelity.sh): all pass.",
     },
 }
